@@ -17,6 +17,7 @@ variable {ν : Type} [DecidableEq ν] [Inhabited ν] {α : Type}
 theorem View.ind {P : View ν α → Prop}
     (tensor : ∀ id t, P (.tensor id t))
     (matrix : ∀ id m r c, P (.matrix id m r c))
+    (matrixOf : ∀ s r c, P s → P (.matrixOf s r c))
     (range : ∀ s rs, P s → P (.range s rs))
     (mask : ∀ s ms, P s → P (.mask s ms))
     (index : ∀ s p, P s → P (.index s p))
@@ -31,6 +32,7 @@ theorem View.ind {P : View ν α → Prop}
   induction v using View.rec (motive_2 := fun ss => ∀ s ∈ ss, P s) with
   | tensor id t => exact tensor id t
   | matrix id m r c => exact matrix id m r c
+  | matrixOf s r c ih => exact matrixOf s r c ih
   | range s rs ih => exact range s rs ih
   | mask s rs ih => exact mask s rs ih
   | index s rs ih => exact index s rs ih
